@@ -189,7 +189,7 @@ func (s script) caseLine() string {
 
 type preq struct {
 	method, url, cseq, transport, ctype, rng, body string
-	hasRange                                     bool
+	hasRange                                       bool
 }
 
 // parseWire reads back a request written by Req.Wire (or a corpus case)
@@ -281,14 +281,14 @@ var publicRtsp = "DESCRIBE, SETUP, TEARDOWN, PLAY, OPTIONS, ANNOUNCE, RECORD"
 var publicWsp = "DESCRIBE, SETUP, TEARDOWN, PLAY, OPTIONS, ANNOUNCE"
 
 var reasonTexts = map[string]string{
-	"Invalid VControl":                     "vctl",
-	"Invalid AControl":                     "actl",
-	"malformed trannsport":                 "malformed",
-	"Current state can't setup as record":  "asrecord",
-	"Current state can't setup as play":    "asplay",
-	"can't setup as record":                "asrecord",
+	"Invalid VControl":                            "vctl",
+	"Invalid AControl":                            "actl",
+	"malformed trannsport":                        "malformed",
+	"Current state can't setup as record":         "asrecord",
+	"Current state can't setup as play":           "asplay",
+	"can't setup as record":                       "asrecord",
 	"when mode = record，only support tcp unicast": "recordtcp",
-	"websocket only support tcp unicast":   "wstcp",
+	"websocket only support tcp unicast":          "wstcp",
 }
 
 func (w *world) respStr(it sl.Item, flav, setupPath string) string {
@@ -663,7 +663,9 @@ func (g *gen) alphabet() []sym {
 		{"OPTIONS", func(g *gen, p string, n int) string { return wire("OPTIONS", base+p, n, "", "", "") }},
 		{"DESCRIBE", func(g *gen, p string, n int) string { return wire("DESCRIBE", base+p, n, "", "", "") }},
 		{"DESCRIBE-missing", func(g *gen, p string, n int) string { return wire("DESCRIBE", base+"/live/none", n, "", "", "") }},
-		{"ANNOUNCE", func(g *gen, p string, n int) string { return wire("ANNOUNCE", base+"/pub/x", n, "", "application/sdp", av) }},
+		{"ANNOUNCE", func(g *gen, p string, n int) string {
+			return wire("ANNOUNCE", base+"/pub/x", n, "", "application/sdp", av)
+		}},
 		{"ANNOUNCE-badsdp", func(g *gen, p string, n int) string {
 			return wire("ANNOUNCE", base+"/pub/x", n, "", "application/sdp", "v=0\r\nbroken")
 		}},
@@ -676,7 +678,9 @@ func (g *gen) alphabet() []sym {
 		{"SETUP-v-udp", func(g *gen, p string, n int) string {
 			return wire("SETUP", g.controlURL(p, false), n, "RTP/AVP;unicast;client_port=40000-40001", "", "")
 		}},
-		{"SETUP-v-mc", func(g *gen, p string, n int) string { return wire("SETUP", g.controlURL(p, false), n, "RTP/AVP;multicast", "", "") }},
+		{"SETUP-v-mc", func(g *gen, p string, n int) string {
+			return wire("SETUP", g.controlURL(p, false), n, "RTP/AVP;multicast", "", "")
+		}},
 		{"SETUP-v-tcp-record", func(g *gen, p string, n int) string {
 			return wire("SETUP", base+"/pub/x/streamid=0", n, "RTP/AVP/TCP;unicast;interleaved=0-1;mode=record", "", "")
 		}},
